@@ -192,14 +192,6 @@ void run_cell(Desc const& D, vf::Case& cs)
             vf::cover("type-level", vf::mix(h0, vf::fnv(f.what)), true);
             vf::eq_bool("value", f.e, f.s);
         }
-        char const* const freeops[] = {"d*s", "s*d", "d/s", "d%s"};
-        for (int i = 0; i < 4; ++i) {
-            if (D.spresent[O_MUL_DS + i] && !D.epresent[O_MUL_DS + i]) {
-                char label[72];
-                std::snprintf(label, sizeof label, "absent-api: duration %s", freeops[i]);
-                vf::sample(label, "%s (duration (op) tick-count value) is not provided by tetl (skipped, not a divergence)", freeops[i]);
-            }
-        }
     }
     // ---- counts
     std::vector<ld> counts;
@@ -332,7 +324,7 @@ void run_cell(Desc const& D, vf::Case& cs)
                     if ((op == O_DIV_DS || op == O_MOD_DS) && si == 0) { continue; }
                     i128 const res = op == O_DIV_DS ? ci / si : (op == O_MOD_DS ? ci % si : ci * si);
                     if ((ld)res < D.cr_lo || (ld)res > D.cr_hi || res > ((i128)1 << 64) || res < -((i128)1 << 64)) { continue; }
-                    if (op == O_DIV_DS && (ld)(ci / si) != (ld)(ci / si)) { continue; }
+                    if ((op == O_DIV_DS || op == O_MOD_DS) && ((ld)(ci / si) < D.cr_lo || (ld)(ci / si) > D.cr_hi)) { continue; } // INT_MIN / -1 and INT_MIN % -1
                     cmp((Op)op, true, (ld)res);
                 }
             }
